@@ -357,7 +357,10 @@ func ProofAuthenticate(cfg ProofConfig, inner AuthenticateFunc) (AuthenticateFun
 	}
 	var cache *nonceCache
 	if !cfg.DisableReplayCache {
-		cache = newNonceCache(time.Duration(cfg.SkewSeconds)*time.Second, capacity, cfg.Now)
+		// Retention spans the whole acceptance window, not one skew: a proof
+		// stamped now+skew verifies until now+2*skew, so forgetting its nonce
+		// after a single skew would let it be replayed for the second half.
+		cache = newNonceCache(2*time.Duration(cfg.SkewSeconds)*time.Second, capacity, cfg.Now)
 	}
 	required := cfg.Mode == ProofModeRequire
 	local := cfg
